@@ -125,6 +125,47 @@ CONFIGS_THOROUGH = ["all", "default"]
 EXPLANATION = ("C14 (independence of backend and node cache): decides that the node cache is written only by to_node_cache and infos_to_nodes (R1), that what enters it is exactly node_from_bytes(index, "
                "storage bytes), never blank nodes, misses, changeset / unflushed / proof nodes, and that it is seeded with the roots read from storage (R2), that a cache miss falls through to the "
                "normal lookup and a hit returns the cached node for the requested index (R3), and that no code outside Storage::new_memory / new_disk names a concrete backend or inspects a backend's "
-               "dynamic type, each store mapping to its own trait object (R4).")
+               "dynamic type, each store mapping to its own trait object (R4), and that randomness / clocks / environment are read only by key generation, the flush cadence depends only on the core's own counters and signing is the deterministic Ed25519 signer (R5).")
 NOT_DECIDED = "byte identity of files across backends; hole punching / del semantics inside random-access-disk; effects of eviction; determinism of flush cadence (skip_flush_count is a plain counter) and of Ed25519 signatures (library)."
 ASSUMPTIONS = ["moka returns only values that were inserted under the same key", "tree nodes on disk are immutable once written except by truncation"]
+
+
+def r5(ctx, prop=P, rule="C14.R5"):
+    """sources of nondeterminism: only key generation may draw randomness; nothing reads clocks,
+    the environment or thread identity; the flush cadence depends only on counters of the core"""
+    NONDET = ("rand::", "getrandom::", "std::time::Instant", "std::time::SystemTime", "std::env::", "std::thread::", "std::process::id", "std::collections::hash_map::RandomState", "std::hash::RandomState",
+              "ed25519_dalek::SigningKey::generate")
+    allowed = {"crypto::key_pair::generate"}
+    users = {}
+    for fa in ctx.all_fas():
+        for s, t in fa.calls():
+            c = (t.get("callee") or "")
+            full = (t.get("callee_full") or "")
+            if c.startswith(NONDET) or any(k in full for k in ("OsRng", "ThreadRng", "SystemTime", "Instant::now")):
+                users.setdefault(fn_of(fa.body.name), []).append(site_desc(fa, s))
+    bad = {f: v for f, v in users.items() if f not in allowed}
+    if ctx.crate.name == "hypercore":
+        need(ctx, prop, rule, "key generation draws randomness", users.get("crypto::key_pair::generate"))
+    ctx.check(prop, rule, "randomness, clocks and environment are used only for key generation", not bad, "nondeterministic sources only in %s" % sorted(users),
+              "nondeterministic source used in %s" % sorted(bad), sum(bad.values(), [])[:6], key="%s|%s|nondeterminism outside key generation|%s" % (prop, rule, ",".join(sorted(bad))))
+    fa = ctx.fn(SHOULD_FLUSH)
+    if need(ctx, prop, rule, SHOULD_FLUSH, fa):
+        deps = set()
+        for b, o, tr, fl in bool_switches(fa, lambda o: True):
+            deps |= term_paths(o)
+            for s_ in subterms(o):
+                if isinstance(s_, tuple) and s_[0] == "call":
+                    deps.add("call:" + s_[2])
+                if isinstance(s_, tuple) and s_[0] == "const":
+                    deps.add("const:" + s_[1].split("::")[-1])
+        ok = deps <= {"self.skip_flush_count", "self.oplog.entries_byte_length", "const:MAX_OPLOG_ENTRIES_BYTE_SIZE", "self", "self.oplog"} and "self.skip_flush_count" in deps
+        ctx.check(prop, rule, "flush cadence depends only on the core's own counters", ok, "should_flush reads skip_flush_count and oplog.entries_byte_length only", "should_flush depends on %s" % sorted(deps),
+                  key="%s|%s|flush cadence inputs" % (prop, rule))
+    fs = ctx.fn(CRYPTO_SIGN)
+    if need(ctx, prop, rule, CRYPTO_SIGN, fs):
+        c = [t.get("callee") for _, t in fs.calls()]
+        ctx.check(prop, rule, "signing is the deterministic Ed25519 signer", any((x or "").endswith("Signer::sign") for x in c) and not any("rand" in (x or "") or "sign_prehashed" in (x or "") for x in c),
+                  "signing_key.sign(msg) (RFC 8032 deterministic nonce)", "crypto::sign uses %s" % c)
+
+
+RULES.append(r5)
